@@ -147,6 +147,7 @@ func init() {
 			guard(r, func() { ruleFootprint(r, "E.footprint", footSel("(column.rw", "(column.rd", "(column.Row)."), 40) })
 			guard(r, func() { ruleMergeReentrant(r) }) // a merge that decodes into state shared by all blocks stores another row's value
 			guard(r, func() { ruleSwapInPlaceSameSize(r) })
+			guard(r, func() { ruleReplayOrder(r) }) // an operation replayed out of order overwrites the value committed last (KF4)
 		}})
 	register(&PropSpec{ID: "C02",
 		Explanation: "Atomicity — structural part. (C02.query) path rules over Collection.Query/rollback/commit/reset: error edge ⇒ rollback only, nil edge ⇒ commit only, transaction released, buffers dropped on every exit; (C02.effects) who-may-call over the context graph of the lockset walk: every Apply body and every logger/recorder append is reachable only below Txn.commit (or index back-fill); (C02.isolation) no bit of the shared fill list is set outside commit; (C02.release) failing inserts free their offset and leave no marker, rollback releases the offsets of successful inserts; (C02.readers) no reading API decodes a transaction buffer." + staticNote,
@@ -364,7 +365,7 @@ func init() {
 			ruleFootprint(r, "E.footprint", func(n string) bool {
 				return strings.HasSuffix(n, ").Merge") || strings.HasPrefix(n, "(column.Row).Merge") || n == "(column.rwTTL).Extend"
 			}, 10)
-			guard(r, func() { ruleCodecFlags(r) }) // a merge that is not encoded (or shifts the offsets of the ones after it) is lost
+			guard(r, func() { ruleCodecFlags(r) })    // a merge that is not encoded (or shifts the offsets of the ones after it) is lost
 			guard(r, func() { ruleCommitUpdates(r) }) // a merge in a buffer that is never visited is lost
 			guard(r, func() { ruleSwapInPlaceSameSize(r) })
 		}})
@@ -449,7 +450,9 @@ func init() {
 			guard(r, func() { ruleReadChunk(r) })
 			guard(r, func() { ruleStateVersion(r) })
 			guard(r, func() { ruleL5id(r) }) // the replay guard compares ids of one block: they follow the order of application
-			guard(r, func() { ruleErrNotOverwritten(r, "C13.err", []string{"(*commit.Commit).ReadFrom", "(*commit.Buffer).ReadFrom", "commit.readChunksFrom", "(*commit.Log).Range", "(*column.Collection).readState", "(*column.Collection).Restore"}) })
+			guard(r, func() {
+				ruleErrNotOverwritten(r, "C13.err", []string{"(*commit.Commit).ReadFrom", "(*commit.Buffer).ReadFrom", "commit.readChunksFrom", "(*commit.Log).Range", "(*column.Collection).readState", "(*column.Collection).Restore"})
+			})
 		}})
 	register(&PropSpec{ID: "C14",
 		Explanation: "A failed snapshot reports the error and leaves the collection usable — structural part. (C14.pair) must-pass-through on Snapshot's flow graph: after the recorder was opened every exit uninstalls it, closes the temporary log and removes its file; losing the installation race cleans up; (C14.err) error-flow: no error on the state-writing path is discarded." + staticNote,
@@ -464,7 +467,9 @@ func init() {
 			guard(r, func() { ruleStateFlush(r) })
 			guard(r, func() { ruleFootprint(r, "E.footprint", footSel("(*column.Collection).Snapshot"), 1) })
 			guard(r, func() { ruleL0(r) }) // "leaves the collection usable": a latch leaked on an error exit hangs every later commit to the block
-			guard(r, func() { ruleErrNotOverwritten(r, "C14.err", []string{"(*column.Collection).Snapshot", "(*column.Collection).writeState", "(*commit.Log).Copy", "(*commit.Log).Append", "(*column.Collection).recorderOpen", "(*column.Collection).recorderClose", "(*commit.Buffer).WriteTo", "(*commit.Commit).WriteTo"}) })
+			guard(r, func() {
+				ruleErrNotOverwritten(r, "C14.err", []string{"(*column.Collection).Snapshot", "(*column.Collection).writeState", "(*commit.Log).Copy", "(*commit.Log).Append", "(*column.Collection).recorderOpen", "(*column.Collection).recorderClose", "(*commit.Buffer).WriteTo", "(*commit.Commit).WriteTo"})
+			})
 		}})
 	register(&PropSpec{ID: "C15",
 		Explanation: "Change stream exactly-once, per-block ordered, identifiable — structural part. (C15.once) the commit callback's flow graph is evaluated under all 16 valuations of its guards: one logger append iff rows changed or a column was updated, one callback per dirty block; (C15.dirty) dirty blocks come from the buffers' headers; (C02.effects emit/*) appends only below commit; (L5.id) ids drawn under the exclusive latch from one atomic counter ⇒ per block id order = apply order = emission order (with L5.emit); (C06.emitfields) emitted fields; (C05.copy) Commit.Clone keeps the id." + staticNote,
@@ -534,6 +539,7 @@ func init() {
 				ruleFootprint(r, "E.footprint", footSel("(column.rwTTL).", "(column.Row).TTL", "(column.Row).SetTTL"), 4)
 			})
 			guard(r, func() { ruleVacuumVisitsEveryRow(r) })
+			guard(r, func() { ruleRelease(r) }) // a marker queued for a released offset deletes the row that owns it by then, deadline and all
 		}})
 	register(&PropSpec{ID: "C18",
 		Explanation: "Race/deadlock discipline. The lockset walk (see C10) decides for every call path: (L0) balance; (L1) column Apply under the exclusive latch, index back-fill included; (L2) positioned callbacks under the latch; (L3) every storage access reachable from an API root under the latch; (L4) fill list under the collection mutex, counter atomic-only, commit-id table under mutex/latch; (L6) key table and sorted index under their locks; (L7) cross-block column state is written only under a lock its readers take; (L8) the acquisition-order graph over all paths is acyclic with no re-acquisition and no latch-under-latch; (L9) the registry published through atomic.Value is never edited in place; (L.table) every field of every Column implementation is classified. Necessary conditions for race- and deadlock-freedom over all schedules; not sufficient (abstract locks, no alias analysis across functions, dependencies trusted)." + staticNote,
